@@ -128,5 +128,6 @@ func (ci *ContractInvocation) UnmarshalJSON(data []byte) error {
 	ci.ArgumentsCount = aux.ArgumentsCount
 	ci.Truncated = aux.Truncated
 	ci.Arguments = args
+	ci.argumentsBytes = nil // The receiver can hold serialized arguments of another invocation.
 	return nil
 }
